@@ -548,6 +548,102 @@ func c12LockLabels(ths []c12LockThread) []string {
 	return ls
 }
 
+// c12EnumLock enumerates every schedule of a Part A scenario (stateless depth-first search: re-run
+// with the longest unexplored prefix, lowest thread first) and hands each outcome to visit.
+func c12EnumLock(ths []c12LockThread, wrap func(c12Picker) c12Picker, visit func(out c12Outcome) bool) int {
+	n := 0
+	var prefix []int
+	for {
+		var choices []int
+		var runnables [][]int
+		inner := func(s *hx.Sched, runnable []int) int {
+			c := runnable[0]
+			if len(choices) < len(prefix) {
+				c = prefix[len(choices)]
+			}
+			choices = append(choices, c)
+			runnables = append(runnables, append([]int{}, runnable...))
+			return c
+		}
+		var pick c12Picker = inner
+		if wrap != nil {
+			pick = wrap(inner)
+		}
+		out := c12LockExec(ths, pick)
+		n++
+		if !visit(out) {
+			return n
+		}
+		i := len(choices) - 1
+		for ; i >= 0; i-- {
+			next := -1
+			for _, r := range runnables[i] {
+				if r > choices[i] {
+					next = r
+					break
+				}
+			}
+			if next >= 0 {
+				prefix = append(append([]int{}, choices[:i]...), next)
+				break
+			}
+		}
+		if i < 0 {
+			return n
+		}
+	}
+}
+
+// c12KeySetVariants: every non-empty key set over the universe with every mode assignment.
+func c12KeySetVariants(univ []string) [][]c12LK {
+	var out [][]c12LK
+	var rec func(i int, acc []c12LK)
+	rec = func(i int, acc []c12LK) {
+		if i == len(univ) {
+			if len(acc) > 0 {
+				out = append(out, append([]c12LK{}, acc...))
+			}
+			return
+		}
+		rec(i+1, acc)
+		rec(i+1, append(acc, c12LK{K: univ[i]}))
+		rec(i+1, append(acc, c12LK{K: univ[i], X: true}))
+	}
+	rec(0, nil)
+	return out
+}
+
+// c12ExhaustiveLock: every schedule of every 2-thread scenario over the universe (one round each).
+func c12ExhaustiveLock(t *testing.T, c *hx.Collector, univ []string, shard, shards int) (scenarios, schedules int) {
+	vs := c12KeySetVariants(univ)
+	idx := 0
+	for _, a := range vs {
+		for _, b := range vs {
+			idx++
+			if idx%shards != shard%shards {
+				continue
+			}
+			ths := []c12LockThread{{Keys: a, Rounds: 1}, {Keys: b, Rounds: 1}}
+			labels := c12LockLabels(ths)
+			scenarios++
+			schedules += c12EnumLock(ths, nil, func(out c12Outcome) bool {
+				tr := c12LockTrace{Threads: ths, Sched: c12SchedOf(out.Steps)}
+				if out.Wedged {
+					t.Fatalf("harness wedged (inconclusive)")
+				}
+				if out.Err != nil {
+					c.Violate("spinlock-schedules", out.Err.Error(), tr)
+					t.Errorf("exhaustive enumeration: %v", out.Err)
+					return false
+				}
+				c.Count(tr, out.NT, append([]string{"lock-exhaustive"}, labels...)...)
+				return true
+			})
+		}
+	}
+	return
+}
+
 // c12LockWitness: the shrunk schedule of the release/delete window.
 //
 //	T1 (reader) locks, leaves its critical section, unlock: Release()==0, parks before m.Delete
@@ -2014,6 +2110,61 @@ func TestC12(t *testing.T) {
 
 	part := os.Getenv("C12_PART") // development aid: "A" or "B" runs one part only
 	if part == "" || part == "A" {
+		// exhaustive boxes (2 threads cannot form the trigger shape of the known finding)
+		if hx.Tier() == "thorough" {
+			ns, nsch := c12ExhaustiveLock(t, c, []string{"k0", "k1"}, hx.Shard(), hx.Shards())
+			// 3 threads on one key: every mode triple with at most one shared locker, and - while the
+			// known finding keeps pre-emptions inside its window out - the 2-reader triples as well
+			n3, sch3 := 0, 0
+			idx := 0
+			for mask := 0; mask < 8; mask++ {
+				ths := make([]c12LockThread, 3)
+				readers := 0
+				for i := range ths {
+					x := mask&(1<<uint(i)) != 0
+					if !x {
+						readers++
+					}
+					ths[i] = c12LockThread{Keys: []c12LK{{K: "k0", X: x}}, Rounds: 1}
+				}
+				var wrap func(c12Picker) c12Picker
+				if readers == 2 && c12Exclude[c12FindingWindow] {
+					wrap = c12NoWindowPreempt
+				} else if readers >= 2 {
+					continue
+				}
+				idx++
+				if idx%hx.Shards() != hx.Shard()%hx.Shards() {
+					continue
+				}
+				n3++
+				labels := c12LockLabels(ths)
+				sch3 += c12EnumLock(ths, wrap, func(out c12Outcome) bool {
+					tr := c12LockTrace{Threads: ths, Sched: c12SchedOf(out.Steps)}
+					if out.Wedged {
+						t.Fatalf("harness wedged (inconclusive)")
+					}
+					if out.Err != nil {
+						c.Violate("spinlock-schedules", out.Err.Error(), tr)
+						t.Errorf("exhaustive enumeration: %v", out.Err)
+						return false
+					}
+					if wrap != nil {
+						c.Exclude(c12FindingWindow)
+					}
+					c.Count(tr, out.NT, append([]string{"lock-exhaustive"}, labels...)...)
+					return true
+				})
+			}
+			c.SetExhaustive(fmt.Sprintf("spinlock: 3 threads x 1 key, mode triples with <= 1 shared locker (2 shared lockers only with the known finding's window pre-emptions excluded), one round each, split over the shards: every schedule (this shard: %d scenarios, %d schedules)", n3, sch3))
+			c.SetExhaustive(fmt.Sprintf("spinlock: 2 threads x every non-empty key set over {k0,k1} with every shared/exclusive assignment (64 ordered pairs, split over the shards), one lock/critical/unlock round each: every schedule (this shard: %d scenarios, %d schedules)", ns, nsch))
+		} else {
+			ns, nsch := c12ExhaustiveLock(t, c, []string{"k0"}, 0, 1)
+			c.SetExhaustive(fmt.Sprintf("spinlock: 2 threads x 1 key x {shared, exclusive}^2, one lock/critical/unlock round each: every schedule (%d scenarios, %d schedules)", ns, nsch))
+		}
+		if t.Failed() {
+			return
+		}
 		c.Check(t, "spinlock-schedules", hx.N(20000, 400000), func(cs *hx.Case) {
 			rt := cs.RT()
 			ths := c12GenLockScenario(cs)
